@@ -30,9 +30,8 @@ ASSUMPTIONS = [
     'or param.Integer(default=d, bounds=(None, hi)) (Dynamic), or (kind Nosy, 20% of random histories) a String subclass whose _validate first reads '
     '`self.owner.param` — namespace reads *during* assignments; the model has no separate step for them because a read only fills a cache with the fresh walk '
     '(unobservable while Inv holds) — with an explicit default; values are the ints 0..9 and None (every Parameter is allow_None=True; None crosses the boundary as -1, which passes every upper bound like None does)',
-    'the inherited `name` parameter is filtered out of every observation; watchers, dynamic values and '
-    'Parameter-valued class assignment (`C.y = param.Integer()`) is modelled at class level only and only in directed cases (known finding: it clears no cache and '
-    'leaves the Parameter unnamed, which breaks it at instance level); the hierarchy is fixed at the start of a history (no class creation inside it)',
+    'the inherited `name` parameter is filtered out of every observation; watchers and dynamic values are outside the model; '
+    'the hierarchy is fixed at the start of a history (no class creation inside it)',
     'class-level / instance-level assignment to a name that is not a Parameter there (plain Python attribute) is skipped on both sides',
     '`repr`, watching: not observed separately; they read the same `objects("existing")` dictionary as values() and serialisation',
     'edit_constant appears as a reader of the class namespace (instBlock: an empty block); its flag handling is C14',
@@ -50,7 +49,7 @@ COVERAGE_TARGETS = [
     'newInst:ok', 'newInst:ok:kwargs', 'newInst:TypeError:kwargs', 'newInst:ValueError:kwargs',
     'instSet:ok:makes-copy', 'instSet:ok:has-copy', 'instSet:ValueError:has-copy', 'instSet:skip:makes-copy',
     'instParam:ok:makes-copy', 'instParam:ok:has-copy', 'instParam:KeyError:makes-copy',
-    'instBlock:ok:fill', 'instBlock:ok:cached', 'clsSetParam:ok:unread', 'clsSetParam:ok:cache-read', 
+    'instBlock:ok:fill', 'instBlock:ok:cached', 'clsSetParam:ok:unread', 'clsSetParam:ok:cache-read', 'clsSetParam:RuntimeError:cache-read', 
     'shape:chain3', 'shape:chain4', 'shape:diamond', 'shape:diamond-tail', 'shape:two-roots', 'shape:fork',
     'obs:stale-window', 'kind:String', 'kind:Integer', 'kind:Nosy', 'value:None-on-instance', 'value:None-class-default',
 ]
@@ -290,11 +289,15 @@ def _directed():
     out.append(('chain3', D3, [{'op': 'newInst', 'c': 2, 'kw': []}, {'op': 'instSet', 'i': 0, 'n': 'y', 'v': 3},
                                {'op': 'instBlock', 'i': 0}, {'op': 'clsSet', 'c': 2, 'n': 'y', 'v': 7},
                                {'op': 'newInst', 'c': 2, 'kw': []}, {'op': 'instBlock', 'i': 1}, {'op': 'instBlock', 'i': 5}], 'all'))
-    # Parameter-valued class assignment: clears no cache (known finding), harmless before any read
+    # Parameter-valued class assignment (3c67719: like add_parameter, but without rollback when the merge is rejected)
     out.append(('chain3', D3, [{'op': 'clsSetParam', 'c': 0, 'n': 'z', 'd': 3, 'hi': None}], 'end'))
     out.append(('chain3', D3, [R(0), R(1), {'op': 'clsSetParam', 'c': 0, 'n': 'z', 'd': 3, 'hi': None}], 'end'))
     out.append(('chain3', D3, [R(2), {'op': 'clsSetParam', 'c': 1, 'n': 'x', 'd': 2, 'hi': None}], 'end'))
     out.append(('chain3', D3, [{'op': 'clsSetParam', 'c': 1, 'n': 'x', 'd': 9, 'hi': None}], 'end'))
+    out.append(('chain3', D3, [R(1), R(2), {'op': 'clsSetParam', 'c': 1, 'n': 'x', 'd': 9, 'hi': None}], 'end'))
+    out.append(('chain3', D3, [R(2), {'op': 'clsSetParam', 'c': 0, 'n': 'z', 'd': 2, 'hi': 6}, {'op': 'newInst', 'c': 2, 'kw': [['z', 4]]},
+                               {'op': 'instSet', 'i': 0, 'n': 'z', 'v': 7}, {'op': 'clsSetParam', 'c': 1, 'n': 'z', 'd': 9, 'hi': None},
+                               {'op': 'instParam', 'i': 0, 'n': 'z'}, {'op': 'clsSet', 'c': 2, 'n': 'z', 'v': 1}], 'all'))
     # per-instance copy, then the class Parameter is replaced underneath it
     for shape in SHAPES:
         n = len(SHAPES[shape])
@@ -360,7 +363,7 @@ def _random_case(rng):
         elif r < 0.62:
             hi = rng.choice([None, None, None, 5, 7])
             d = rng.randint(0, 4) if rng.random() < 0.8 else rng.randint(5, 9)
-            op = {'op': 'addParam', 'c': c, 'n': n, 'd': d, 'hi': hi}
+            op = {'op': 'addParam' if rng.random() < 0.7 else 'clsSetParam', 'c': c, 'n': n, 'd': d, 'hi': hi}
         elif r < 0.72 or ninst == 0:
             kw = [[m, -1 if rng.random() < 0.15 else rng.randint(0, 7)] for m in NAMES if rng.random() < 0.3]
             if rng.random() < 0.05:
@@ -483,11 +486,9 @@ def classify(case, impl, fail):
     if not m:
         return None
     k, name = int(m.group(1)), m.group(2)
-    # a namespace-reading validator filled the cache while a failing add_parameter had its Parameter installed
-    if case['kind'] == 'Nosy' and any(st['op'] == 'addParam' and st['n'] == name and o['res'] == 'RuntimeError'
-                                      for st, o in zip(case['steps'][:k + 1], impl['steps'][:k + 1])):
-        return 'failed-add-parameter-cache-filled-by-validator'
-    # a Parameter object assigned at class level under that name, at or before the failing step
-    if any(st['op'] == 'clsSetParam' and st['n'] == name for st in case['steps'][:k + 1]):
-        return 'parameter-valued-class-assignment-clears-no-cache'
+    # a Parameter object assigned at class level under that name was rejected by the merge re-validation
+    # (RuntimeError) at or before the failing step: it stays installed, no cache is cleared
+    if any(st['op'] == 'clsSetParam' and st['n'] == name and o['res'] == 'RuntimeError'
+           for st, o in zip(case['steps'][:k + 1], impl['steps'][:k + 1])):
+        return 'rejected-parameter-valued-class-assignment-stays-installed'
     return None
